@@ -160,7 +160,7 @@ func runC12(c *core.Ctx) {
 	c.Floor("R12.5", 2)
 	c.Floor("R12.6", 2)
 	c.Floor("R12.7", 1)
-	c.Floor("R12.8", 1)
+	c.Floor("R12.8", 2)
 	c.Floor("R12.9", 1)
 	c.Floor("R12.10", 1)
 	c.Floor("R12.12", 1)
@@ -435,6 +435,24 @@ func r12Drop(c *core.Ctx, p *load.Program, sh *tarShape) {
 		c.Check(bad == "", "R12.8", key, p.Pos(sel.Pos()), "the 'all writers done' branch polls the error channel before reporting success",
 			fmt.Sprintf("%s returns nil at %s straight from a select between the error channel and the writers' completion: a writer queues its error and then signals completion, so both cases are ready and the select may pick completion — the unpack ends without UnarchiveErr although an entry was refused (seen in about 1 of 5000 unpacks)", fname(sh.readErr), bad))
 	})
+	// R12.8 (shape): the end of the unpack waits for "an error OR all writers done" in ONE blocking select; the reader's
+	// own goroutine never blocks in WaitGroup.Wait — the error channel has one slot, so with two failing writers the
+	// second blocks in its send before it can sign off, and a reader that waits for the writers alone waits for ever
+	blockingSel, directWait := false, ""
+	ssax.Instrs(sh.readErr, func(ins ssa.Instruction) {
+		if sel, ok := ins.(*ssa.Select); ok && sel.Blocking {
+			for _, st := range sel.States {
+				if ch, ok := st.Chan.Type().Underlying().(*types.Chan); ok && st.Dir == types.RecvOnly && ssax.IsErrorType(ch.Elem()) {
+					blockingSel = true
+				}
+			}
+		}
+		if cl, ok := ins.(*ssa.Call); ok && ssax.CalleeIs(cl, "sync", "(*WaitGroup).Wait") {
+			directWait = p.Pos(cl.Pos())
+		}
+	})
+	c.Check(blockingSel && directWait == "", "R12.8", fname(sh.readErr)+"|final-wait-is-one-select", p.Pos(sh.readErr.Pos()), "the reader waits for the writers and for their errors in one blocking select",
+		fmt.Sprintf("%s waits for the background writers without listening to the error channel at the same time (blocking select over the error channel: %v; WaitGroup.Wait in the reader's own goroutine: %s): the channel holds one error, so when two writers fail the second blocks in its send and never signs off — the unpack neither finishes nor reports an error", fname(sh.readErr), blockingSel, orDash(directWait)))
 	c.Check(recvOK >= 2, "R12.2", fname(sh.readErr)+"|error-channel-drained", p.Pos(sh.readErr.Pos()), fmt.Sprintf("%d selects receive from the error channel (between entries and at the end)", recvOK),
 		"the read loop does not receive from the error channel both between entries and after the last one: a background writer's failure would not fail the unpack")
 }
